@@ -51,12 +51,12 @@ PROPS["C16"] = {
          "files": ["zz_verif_c15.go", "zz_verif_c16.go"], "quick": r"^VerifC16_", "thorough": r"^VerifC16T?_",
          "shards": {r"CaptureSingle": 5, r"CaptureMid": 2, r"CaptureTwo|CatchAll": 3}},
     ],
-    "bounds": {"quick": {"pattern_shapes": ["/p/{x}", "/p/{x}/q", "/{x}/{y}", "/p/{*x}", "/{*x}", "3 routes sharing a prefix", "2 methods on one catch-all pattern"],
+    "bounds": {"quick": {"pattern_shapes": ["/p/{x}", "/p/{x}/q", "/{x}/{y}", "/p/{*x}", "/{*x}", "3 routes sharing a prefix", "2 methods on one catch-all pattern", "mux.Use middleware reading pattern/variables before routing on /p/{x}, /p/{*x}, /p/{x}/f/{*y}", "unmatched requests (other prefix, extra segment, bare prefix) under 4 Accept headers"],
                          "value_templates": ["1 byte", "2 bytes", "'%'+2 bytes", "byte+'%'+byte+'F'"], "bytes": "full 0..255 range per symbolic byte"},
                "thorough": {"value_templates": "adds 3 fully symbolic bytes for /p/{x}"}},
     "assumptions": ["net/http hands the handler a URL parsed by url.ParseRequestURI from the request-target (harness does the same)",
                     "chi v5.1.0 as in the module cache, interpreted from its own SSA (InsertRoute, routeHTTP, findRoute); sync.Pool as a fresh allocation"],
-    "outside": ["empty value for a single-segment wildcard (chi does not match it)", "values longer than the templates", "404 body and middleware ordering (see DESIGN.md)", "regexp routes"],
+    "outside": ["empty value for a single-segment wildcard (chi does not match it)", "values longer than the templates", "content of the 404 body beyond presence and negotiated content type", "mux.Use after the first Handle (chi refuses it)", "regexp routes"],
     "manifest": {
         "text": "Bounded model checking of the real goa muxer (Handle, Vars, unescape, ResolvePattern, resolveWildcard, ensureContext) on top of the real chi router and the real net/url escaping/parsing code, all interpreted from SSA: for every wildcard value drawn from templates with 1-2 (quick) / 3 (thorough) fully symbolic bytes, the URL built by substituting PathEscape(value) into each of 5 pattern shapes is parsed, routed to the handler of that pattern, Vars returns exactly the original value (including '/', '%', %XX look-alikes, '+', blanks, non-ASCII), ResolvePattern returns the registered pattern, and dispatch picks the right route among routes sharing a prefix or differing by method.",
         "note": "Trusted: gosym executor, z3, regexp on the concrete mount-time patterns (run natively). Branch feasibility on single bytes pre-decided by exact byte domains; all assertions discharged by the SMT solver; counterexamples and witnesses replayed natively against real net/http+chi.",
@@ -195,7 +195,7 @@ PROPS["C04"] = {
     "bounds": {"designs": {"v1": "ints: body Int min/max required, Int64 enum; query Int min; path Int max; header Int32 min",
                            "v2": "floats: exclusive min+max, min, query Int/Float64 exclusive max, UInt max; strings: rune min/max length, enum, pattern, ipv4 format, header max length",
                            "v3": "array min/max length + element min, map length + key length + elem max, required nested user type, array of user types, map key pattern inside nested user type, query array min length",
-                           "v4": "two body types sharing member names; required query parameter with a default", "v5": "required cookie with min length after a validated query parameter; map and array of a user type with a required member; body default with minimum"},
+                           "v4": "two body types sharing member names; required Int and ArrayOf(String) query parameters with a default", "v6": "payload extending two bases whose required lists overlap; Reference restating required attributes, two Required calls", "v5": "required cookie with min length after a validated query parameter; map and array of a user type with a required member; body default with minimum"},
                "values": "every numeric leaf a full-width symbolic integer/float; strings up to 4 symbolic bytes (valid UTF-8); parameter texts = decimal rendering of an arbitrary number | junk | absent; arrays up to 3 elements, maps up to 2 entries; body: JSON document | empty | malformed"},
     "assumptions": ["JSON decoding of the request body into the generated body struct follows encoding/json's documented struct mapping (absent/null -> nil pointer); modelled by the harness filling the body struct",
                     "strconv Format/Parse are inverse (exact in the executor through provenance, real text in native replays)",
@@ -216,7 +216,7 @@ PROPS["C02"] = {
     "harness_tag": "c02",
     "quick": r"^VerifC02_", "thorough": r"^VerifC02T?_",
     "shards": {"a1_put": 4},
-    "bounds": {'designs': {'a1': 'PUT /items/{id}/v/{ver}: 2 path, 4 query (one with default), 2 header, 1 cookie, 6 body attributes (string, int with default, float, array, nested user type, map)', 'a2': 'alias-typed optional/required query and header parameters'}, 'values': 'full-width symbolic numbers, strings of 1-2 arbitrary bytes (headers/cookies: visible ASCII), one attribute group varied at a time'},
+    "bounds": {'designs': {'a1': 'PUT /items/{id}/v/{ver}: 2 path, 4 query (one with default), 2 header, 1 cookie, 6 body attributes (string, int with default, float, array, nested user type, map)', 'a2': 'alias-typed optional/required query and header parameters', 'a3': 'map-typed query parameters, array query/header parameters, optional pointer primitives', 'a4': 'two base paths with the same wildcards (string, int) in a different order: every path constructor; absolute route with a trailing slash; relative route under a service base path', 'a5': 'array and map attributes with defaults (unset / explicitly empty / populated), GET and DELETE catch-all wildcards with different names on one pattern'}, 'values': 'full-width symbolic numbers, strings of 1-2 arbitrary bytes (headers/cookies: visible ASCII), one attribute group varied at a time'},
     "assumptions": ['HTTP transports header/cookie/query values unchanged (identity containers); header strings are visible ASCII'],
     "outside": ["path values containing '/' and zero-valued defaulted parameters are known findings", 'strings longer than 2 bytes', 'designs outside the catalogue (the generator cannot be executed on a symbolic design)', 'XML/gob/form/multipart bodies, websocket streaming, file servers', 'present-but-empty parameter texts'],
     "manifest": {"text": 'Translation validation of generated client and server against each other: a symbolic payload is pushed through the generated client (BuildXRequest, EncodeXRequest, path functions, body constructors), over a wire model (request-target re-parsed by the real net/url, headers, cookies, JSON body by tag name) into the generated server mounted on the real goa muxer+chi, and the solver decides for all values within the bounds that the payload received by the service method equals the payload sent (defaults applied), attribute by attribute.', "note": 'Trusted: gosym executor, z3, the hand-written oracle of each catalogue design; transport seams modelled as identity containers (encoding/json by tag name - real encoding/json in native replays -, url.Values, cookies, Basic auth). The generator runs for real on every run in a scratch module (replace goa => /repo); counterexamples and sampled witnesses are replayed natively against the generated code.'},
@@ -230,7 +230,7 @@ PROPS["C03"] = {
     "harness_tag": "c03",
     "assert_exclude": r"^openapi:",
     "quick": r"^VerifC03_", "thorough": r"^VerifC03T?_",
-    "bounds": {'designs': {'a1': 'result with body attributes (string, int with default, nested user type, array) and two header attributes', 'a2': 'three responses selected by tag value (200/202/201), IPv6-formatted attribute validated by the client'}, 'values': 'full-width symbolic numbers, strings up to 2 bytes'},
+    "bounds": {'designs': {'a1': 'result with body attributes (string, int with default, nested user type, array) and two header attributes', 'a2': 'three responses selected by tag value (200/202/201), IPv6-formatted attribute validated by the client', 'a3': 'array and optional primitives in response headers', 'a5': 'result array/map with defaults (unset / explicitly empty / populated); tagged response whose explicit body leaves the tag attribute out'}, 'values': 'full-width symbolic numbers, strings up to 2 bytes'},
     "assumptions": ['HTTP transports header values unchanged; header strings are visible ASCII'],
     "outside": ['designs outside the catalogue (the generator cannot be executed on a symbolic design)', 'XML/gob/form/multipart bodies, websocket streaming, file servers', 'present-but-empty parameter texts'],
     "manifest": {"text": 'Translation validation of generated server encoder against generated client decoder: a symbolic result returned by the service is encoded by the generated server (status selection by tag, headers, body constructors), carried back over the wire model and decoded/validated by the generated client; the solver decides that status = designed status, exactly one response is written, header attributes travel in headers, and the client result equals the service result with defaults applied; a result violating a format is refused by the client.', "note": 'Trusted: gosym executor, z3, the hand-written oracle of each catalogue design; transport seams modelled as identity containers (encoding/json by tag name - real encoding/json in native replays -, url.Values, cookies, Basic auth). The generator runs for real on every run in a scratch module (replace goa => /repo); counterexamples and sampled witnesses are replayed natively against the generated code.'},
@@ -257,7 +257,7 @@ PROPS["C05"] = {
     "harness_tag": "c05",
     "assert_exclude": r"^openapi:",
     "quick": r"^VerifC05_", "thorough": r"^VerifC05T?_",
-    "bounds": {'designs': {'e1': 'service-level error, method errors of ErrorResult, a custom object type shared by two errors on one status (409), a primitive error type; 10 kinds of returned error incl. wrapped, undeclared with every flag vector, plain Go error, custom type with undeclared name'}},
+    "bounds": {'designs': {'e1': 'service-level error, method errors of ErrorResult, a custom object type shared by two errors on one status (409), a primitive error type; 10 kinds of returned error incl. wrapped, undeclared with every flag vector, plain Go error, custom type with undeclared name; errors whose Timeout/Temporary/Fault flags are fixed in the design', 'e2': 'two errors of one type on one status with different mappings (attribute in a header), two ErrorResult errors on one status (message in a header), status set with Code() inside the response function at method and service level'}},
     "assumptions": [],
     "outside": ['request-decoding failures (covered by C04 harnesses)', 'error headers / goa-attribute-* headers', 'designs outside the catalogue (the generator cannot be executed on a symbolic design)', 'XML/gob/form/multipart bodies, websocket streaming, file servers', 'present-but-empty parameter texts'],
     "manifest": {"text": "Translation validation of the generated error encoder and client error decoding together with goa's default ErrorEncoder/NewErrorResponse/StatusCode: for every kind of error the service can return the solver decides that exactly one response is written, the status is the designed one or follows the documented flag table, the goa-error header names the error, errors sharing a status are told apart, and the generated client returns an error of the designed Go type with the same name and attribute values.", "note": 'Trusted: gosym executor, z3, the hand-written oracle of each catalogue design; transport seams modelled as identity containers (encoding/json by tag name - real encoding/json in native replays -, url.Values, cookies, Basic auth). The generator runs for real on every run in a scratch module (replace goa => /repo); counterexamples and sampled witnesses are replayed natively against the generated code.'},
@@ -271,7 +271,7 @@ PROPS["C08"] = {
     "harness_tag": "c08",
     "assert_exclude": r"^openapi:",
     "quick": r"^VerifC08_", "thorough": r"^VerifC08T?_",
-    "bounds": {'designs': {'w1': 'result type with views default/tiny, nested result type with per-view override, collection, method with the view fixed in the design', 'w2': 'nested attribute carrying a view at type level and a different per-view override; dynamic and fixed-view methods on one result type'}, 'values': 'symbolic attribute values, view names default/tiny/empty, labels: every string up to 7 visible bytes that is not a defined view'},
+    "bounds": {'designs': {'w1': 'result type with views default/tiny, nested result type with per-view override, collection, method with the view fixed in the design', 'w2': 'nested attribute carrying a view at type level and a different per-view override; dynamic and fixed-view methods on one result type; collection declared with a DSL that defines no view'}, 'values': 'symbolic attribute values, view names default/tiny/empty, labels: every string up to 7 visible bytes that is not a defined view'},
     "assumptions": [],
     "outside": ['recursive result types (the generator emits duplicate types for them, C01)', 'designs outside the catalogue (the generator cannot be executed on a symbolic design)', 'XML/gob/form/multipart bodies, websocket streaming, file servers', 'present-but-empty parameter texts'],
     "manifest": {"text": 'Translation validation of generated view projection (NewViewedX, newXView*, server response bodies per view, goa-view header, client decode + views-package validation + NewX): the solver decides that the wire document (inspected through its JSON member names) carries exactly the attributes of the selected view, recursively with per-attribute overrides and for collections, that the view name accompanies the response, that the client rebuilds equal in-view attributes and leaves out-of-view attributes unset, that the empty name means default, and that every undefined view label is refused.', "note": 'Trusted: gosym executor, z3, the hand-written oracle of each catalogue design; transport seams modelled as identity containers (encoding/json by tag name - real encoding/json in native replays -, url.Values, cookies, Basic auth). The generator runs for real on every run in a scratch module (replace goa => /repo); counterexamples and sampled witnesses are replayed natively against the generated code.'},
@@ -291,7 +291,7 @@ PROPS["C20"] = {
     "quick": r"^VerifC20_", "thorough": r"^VerifC20T?_",
     "race_g": True,
     "bounds": {"invocations": 2, "entry_points": ["pkg.ValidatePattern (cold and warm cache, same/different pattern)", "pkg.MergeErrors + validation error constructors", "http.ErrorEncoder closure (nil and custom formatter)",
-                                                  "http.ResponseEncoder/ResponseDecoder", "mounted muxer: ServeHTTP/Vars/ResolvePattern", "generated handler NewIntsHandler of design v1 (valid, invalid and failing requests mixed)"]},
+                                                  "http.ResponseEncoder/ResponseDecoder", "mounted muxer: ServeHTTP/Vars/ResolvePattern from handlers and from a mux.Use middleware (before routing)", "pkg validation error constructors on one field name (sync.Map modelled)", "generated handler NewIntsHandler of design v1 (valid, invalid and failing requests mixed)"]},
     "assumptions": ["sync.Mutex/RWMutex/atomic follow the Go memory model; two accesses are ordered iff they hold a common mutex, at least one in write mode, or both are atomic",
                     "the two invocations are executed one after the other by the executor; conflicts are computed on the recorded accesses (loads, stores, map reads/writes of cells that existed before the invocations)"],
     "outside": ["schedules of the Go scheduler at large, 3-64 goroutines", "chi internals beyond the accesses the two invocations perform, net/http itself", "StreamCanceler, SkipResponseWriter, websocket (goroutines, channels: unsupported by the executor)",
@@ -362,13 +362,16 @@ PROPS["C14"] = {
     "quick": r"^VerifC04_v[12346]_(ints|nums|strs|colls|first|second|merge|restate)$|^VerifC08_w1_(get|list_fixed)$|^VerifC08_w2|^VerifC05_e[12]_|^VerifC03_a5_(coll_result|tagged_body)$",
     "thorough": r"^VerifC04_v[12346]_(ints|nums|strs|colls|first|second|merge|restate)$|^VerifC08_w1_(get|list_fixed)$|^VerifC08_w2|^VerifC05_e[12]_|^VerifC03_a5_(coll_result|tagged_body)$",
     "bounds": {"designs": {"v1": "ints (body, query, path, header)", "v2": "floats with exclusive bounds, UInt, strings with length/enum/pattern", "v3": "arrays, maps, nested user types, query array",
-                           "v4": "two body types sharing member names, required query parameter with a default"},
-               "values": "the symbolic wire requests of the C04 harnesses (same runs, OpenAPI assertions only)"},
+                           "v4": "two body types sharing member names, required query parameters (Int, ArrayOf(String)) with a default", "v6": "payload extending two bases with overlapping required lists; Reference restating required attributes",
+                           "w1": "responses: result type under run-time and design-fixed views, collection", "w2": "responses: nested view override, collection declared with a DSL",
+                           "e1": "responses: declared errors (ErrorResult, custom type, primitive) against the schema of their status code", "e2": "responses: errors sharing a status code, Code() inside the response function, error attributes in headers",
+                           "a5": "responses: collections with defaults, tagged response with explicit body"},
+               "values": "the symbolic wire requests of the C04 harnesses and the symbolic responses of the C03/C05/C08 harnesses (same harnesses, OpenAPI assertions only)"},
     "assumptions": ["the OpenAPI document is read as goa writes it: numeric exclusiveMinimum/exclusiveMaximum are taken with JSON-Schema draft-06 meaning (a 3.0.x validator such as kin-openapi refuses them; the native replay rewrites them to the boolean form first)",
                     "format: int32/int64 are range constraints, other formats are advisory and not compared", "NaN parameters, explicit JSON null and unknown extra members are outside the schema's value space"],
-    "outside": ["responses against response schemas (not covered yet)", "validity of the document itself (C07)", "designs outside the catalogue"],
-    "manifest": {"text": "Translation validation between two artefacts the real generator emits for each catalogue design: the parameter and request-body schemas of gen/http/openapi3.json (parsed at check time, evaluated as an SMT predicate over the symbolic wire request by the executor's JSON-schema evaluator) and the generated server (run symbolically as in C04). The solver decides schema(request) <=> server accepts(request) for all values within the bounds; natively every counterexample and witness is re-validated with kin-openapi against the generated server code.",
-                 "note": 'Trusted: gosym executor and its JSON-schema evaluator (cross-checked natively by kin-openapi on every counterexample/witness), z3, the C04 wire model. Five genuine divergences are listed in known_findings.json.'},
+    "outside": ["response headers and cookies against their documented schemas (bodies and status codes only)", "undeclared errors (default 400/500 responses are not documented by goa)", "validity of the document itself (C07)", "designs outside the catalogue"],
+    "manifest": {"text": "Translation validation between two artefacts the real generator emits for each catalogue design: the parameter and request-body schemas of gen/http/openapi3.json (parsed at check time, evaluated as an SMT predicate over the symbolic wire request by the executor's JSON-schema evaluator) and the generated server (run symbolically as in C04). The solver decides schema(request) <=> server accepts(request) for all values within the bounds, and, for the success and declared-error responses the generated server produces in the C03/C05/C08 harnesses, that the status code is documented and the response body conforms to the schema documented for it; natively every counterexample and witness is re-validated with kin-openapi against the generated server code.",
+                 "note": 'Trusted: gosym executor and its JSON-schema evaluator (cross-checked natively by kin-openapi on every counterexample/witness), z3, the C04 wire model. Seven genuine divergences are listed in known_findings.json.'},
 }
 
 PROPS["C10"] = {
